@@ -232,17 +232,26 @@ package boltz
 //@ func (EntityStrategy).PersistEntity
 //@   modifies *, cxPersist
 //@   ensures[persist-logged] cxPersist == cxN
-// link cleanup is not a constraint notification
+// link cleanup is not a constraint notification; edDone[c]: link collection c has been told about the deleted entity
+//@ ghost edDone : (Array Int Bool) private
 //@ func (LinkCollection).EntityDeleted
-//@   modifies *
+//@   modifies *, edDone[self]
+//@   ensures[told] result == nil ==> edDone[self]
 //@ func (RefCountedLinkCollection).EntityDeleted
-//@   modifies *
+//@   modifies *, edDone[self]
+//@   ensures[told] result == nil ==> edDone[self]
+//@ immutable H.boltz.BaseStore.refCountedLinks
+//@ immutable M.string.boltz.RefCountedLinkCollection.dom
+//@ immutable M.string.boltz.RefCountedLinkCollection.val.typ
+//@ immutable M.string.boltz.RefCountedLinkCollection.val.val
+// every link collection of the store, plain and reference counted, is told about the deleted entity unless one fails
 //@ func (*BaseStore).cleanupLinks
-//@   props C03
+//@   props C03 C05 C06
 //@   nosafety
-//@   modifies *
-//@   invariant 1: true
-//@   invariant 2: true
+//@   modifies *, edDone
+//@   ensures[every-link-collection-is-told] !holderFailed[holder] ==> forallStr(k, has(store.links, k) ==> edDone[store.links[k]]) && forallStr(k, has(store.refCountedLinks, k) ==> edDone[store.refCountedLinks[k]])
+//@   invariant 1: !holderFailed[holder] ==> forallStr(k, iterseen(k) ==> edDone[store.links[k]])
+//@   invariant 2: (!holderFailed[holder] ==> forallStr(k, has(store.links, k) ==> edDone[store.links[k]]) && forallStr(k, iterseen(k) ==> edDone[store.refCountedLinks[k]]))
 // assumed: an entity's id does not change while it is being stored (GetId is a function of the entity)
 //@ spec entId(e Int) Str
 //@ func (Entity).GetId
